@@ -3212,11 +3212,44 @@ def part_e(reg):
     )]
 
 
+def part_f(reg):
+    """Round 7: the constructor of the client -- the initial state the cache typestate (Part D) and every `p_client` start from."""
+    def field_of(c, name):
+        o = c.st.obj(c.args["self"].ref)
+        return o.data.get(name) if o.kind == "obj" and o.data is not None else None
+
+    def caches_empty(c):
+        return z3.BoolVal(all(isinstance(field_of(c, f), VNoneT) for f in ("_access_token", "_site_id")))
+
+    def transport_kept(c):
+        given, got = c.args["request_func"], field_of(c, "_request")
+        if isinstance(given, VExt) and given.sort == "Transport":
+            return z3.BoolVal(isinstance(got, VExt) and got.sort == "Transport" and got.t.eq(given.t))
+        # none given: the standard library's urlopen, not a transport value of ours
+        return z3.BoolVal(got is not None and not isinstance(got, (VNoneT, VExt)))
+
+    def creds_kept(c):
+        got = field_of(c, "_credentials")
+        return z3.BoolVal(isinstance(got, VRef) and got.ref == c.args["credentials"].ref)
+
+    return [FnContract(
+        target=f"{CLIENT}::SharePointRestClient.__init__",
+        params=[("self", p_obj("SharePointRestClient", {})), ("site_url", p_str()), ("credentials", CREDS),
+                ("request_func", with_default(p_opt(p_transport()), NONE)), ("timeout", with_default(p_unk(), VUnk("timeout")))],
+        ensures=[("both-caches-start-empty", caches_empty),
+                 ("the-transport-is-the-one-given-(urlopen-when-none-is)", transport_kept),
+                 ("the-credentials-are-the-ones-given", creds_kept)],
+        raises=[], total=True, modifies=("self",),
+        note="a new client holds no token and no site id (so its first listing authenticates and resolves the site), talks through "
+             "the transport it was given and authenticates with the credentials it was given",
+    )]
+
+
 def contracts(reg):
     install_string_models(reg)
     install_transport_models(reg)
     install_listing_models(reg)
-    return part_a(reg) + part_b(reg) + part_c(reg) + part_e(reg)
+    return part_a(reg) + part_b(reg) + part_c(reg) + part_e(reg) + part_f(reg)
 
 
 # ================================================================== Part D ==
